@@ -133,7 +133,7 @@ impl Ty {
             Ty::Spanned(t) => t.despanned(),
             Ty::Option(t) => Ty::Option(Box::new(t.despanned())),
             Ty::Seq(t) => Ty::Seq(Box::new(t.despanned())),
-            Ty::Map(k, t) => Ty::Map(k.clone(), Box::new(t.despanned())),
+            Ty::Map(k, t) => Ty::Map(if *k == KeyTy::SpannedStr { KeyTy::Str } else { k.clone() }, Box::new(t.despanned())),
             Ty::Newtype(n, t) => Ty::Newtype(n.clone(), Box::new(t.despanned())),
             Ty::Tuple(ts) => Ty::Tuple(ts.iter().map(|t| t.despanned()).collect()),
             Ty::TupleStruct(n, ts) => Ty::TupleStruct(n.clone(), ts.iter().map(|t| t.despanned()).collect()),
